@@ -31,9 +31,9 @@ Theorem C12_to_fpcore_sound_cont :
 Proof. exact to_fpcore_sound_cont. Qed.
 Print Assumptions C12_to_fpcore_sound_cont.
 
-(* backend/fpc.py as it is: sound when no statement follows a `with` inside
-   its own block.  Missing for the full statement: programs with a statement
-   after an inner `with` (refuted below). *)
+(* backend/fpc.py as it is: sound when only variable copies follow a `with`
+   inside its own block (wl_block).  Missing for the full statement: programs
+   with an operation after an inner `with` (refuted below). *)
 Theorem C12_to_fpcore_as_coded_partial :
   forall (V : Type) (N : numops V),
     (forall rm z, n_num N (CMPFixed (-1) rm) z = n_int N z) ->
